@@ -19,6 +19,7 @@ def features(case, run, val):
 
 
 def case_gen(rng, k):
+    if k % 14 == 6: return gen.gen_late_event_case(rng)
     case = (gen.gen_nested_case(rng) if k % 8 == 7 else gen.gen_loop_case(rng) if k % 4 == 2 else gen.gen_queue_case(rng) if k % 4 == 1
             else gen.gen_parallel_case(rng, clean=False) if k % 8 == 3 else gen.gen_case(rng, groups=True))
     if k % 8 in (4, 5):
